@@ -1046,6 +1046,24 @@ theorem C09_id_import_through_codec_witness :
   simp at h
   subst h; rfl
 
+/-- The hypotheses of `C09_id_codec_invisible` / `C09_id_reopen_after_commit` / `C09_id_decoder_failure` are satisfiable:
+the tag-byte serializer round-trips, `==` on byte strings is a lawful comparison, the initial instance satisfies the
+invariant and its `Commit` succeeds; and a cell written by it is not decodable by a serializer that expects tag `2`. -/
+example :
+    let ic : IdCodec (List UInt8) (List UInt8) :=
+      { enc := fun r => some (1 :: r), dec := fun b => match b with | 1 :: r => some r | _ => none }
+    let ic2 : IdCodec (List UInt8) (List UInt8) :=
+      { enc := fun r => some (2 :: r), dec := fun b => match b with | 2 :: r => some r | _ => none }
+    let c : Cfg (List UInt8) := { rootOf := fun f => (f [7]).getD [0], dec := fun _ => .ok }
+    RoundTrip ic ∧ LawfulSame (fun a b : List UInt8 => a == b) ∧ IdInv ic (ISt.init : ISt (List UInt8) (List UInt8)) ∧
+    commitsOk c ic (ISt.init : ISt (List UInt8) (List UInt8)) .commit = true ∧
+    ((istep c ic (· == ·) ISt.init .commit).1.cell = some [1, 0] ∧ ic2.dec [1, 0] = none) := by
+  refine ⟨?_, ?_, idInv_init _, rfl, rfl, rfl⟩
+  · intro r b h
+    simp at h
+    subst h; rfl
+  · intro a b; simp
+
 end IdCodecs
 
 /-! ## the typed surface (`Hive/Model/AdsTyped.lean`): keys and values through arbitrary round-tripping serializers -/
@@ -1301,6 +1319,10 @@ theorem C09_fault_size_lags_witness :
     let st := (fstep c ic (fun _ _ => true) .sizeW ISt.init (.set (some [1]) (some [2]))).1
     has st.s [1] = true ∧ sizeOf st.s = 0 ∧ st.s.rawKeys = [[1]] := by
   decide
+
+/-- The hypothesis `dangling = none` of the fault theorems holds in every state reachable with round-tripping identifier
+serializers (`C09_id_codec_run`: `IdInv`), e.g. initially; and `has … = false` of `C09_fault_what_lags` for any key then. -/
+example : (ISt.init : ISt Unit Unit).dangling = none ∧ has (ISt.init : ISt Unit Unit).s [1] = false := ⟨rfl, rfl⟩
 
 end Faults
 
